@@ -92,6 +92,19 @@ func init() {
 			}
 		}
 		boolean := func(name string, v bool, doc string) { fs.set(name, leanBool(v), doc) }
+		// two adjacent simple updates of DIFFERENT variables (`c.size -= …; c.count--`), neither of which reads the
+		// other's target, may come in either order: pick the one that updates lhs
+		pick := func(pair []ast.Stmt, lhs string) ast.Stmt {
+			for _, st := range pair {
+				src := x.Src(st)
+				for _, op := range []string{" = ", " += ", " -= ", "++", "--"} {
+					if strings.HasPrefix(src, lhs+op) {
+						return st
+					}
+				}
+			}
+			return pair[0]
+		}
 		// every method of Cache starts `c.μ.Lock(); defer c.μ.Unlock()` (the discipline itself is Gen.CacheLock)
 		locked := func(fn *ast.FuncDecl) []ast.Stmt {
 			b := fn.Body.List
@@ -146,8 +159,8 @@ func init() {
 					ok := x.stmtsAre(rb, "c.store.Remove(key)", "c.onEvict(key, old)", "*", "*")
 					boolean("putReplaceSteps", ok, "`Put` (replace): `"+x.Src(rep)+"`")
 					if ok {
-						assign("replaceSize", "Put (replace)", rb[2], "c.size")
-						assign("replaceCount", "Put (replace)", rb[3], "c.count")
+						assign("replaceSize", "Put (replace)", pick(rb[2:4], "c.size"), "c.size")
+						assign("replaceCount", "Put (replace)", pick(rb[2:4], "c.count"), "c.count")
 					}
 				}
 				if e := DefineOf(b[3], "newSize"); e != nil && x.stmtsAre(b[3:4], "newSize := "+x.Src(e)) {
@@ -163,29 +176,39 @@ func init() {
 					ok := x.stmtsAre(lb, "ek, ev := c.store.Evict()", "c.onEvict(ek, ev)", "*", "*")
 					boolean("putEvictSteps", ok, "`Put` (loop): `"+strings.Join(x.srcs(lb), "; ")+"`")
 					if ok {
-						assign("evictCount", "Put (loop)", lb[2], "c.count")
-						assign("evictNewSize", "Put (loop)", lb[3], "newSize")
+						assign("evictCount", "Put (loop)", pick(lb[2:4], "c.count"), "c.count")
+						assign("evictNewSize", "Put (loop)", pick(lb[2:4], "newSize"), "newSize")
 					}
 				}
 				ok := x.stmtsAre(b[5:], "c.store.Store(key, val)", "*", "*", "return true")
 				boolean("putStoresLast", ok, "`Put` (end): `"+strings.Join(x.srcs(b[5:]), "; ")+"`")
 				if ok {
-					assign("putSize", "Put", b[6], "c.size")
-					assign("putCount", "Put", b[7], "c.count")
+					assign("putSize", "Put", pick(b[6:8], "c.size"), "c.size")
+					assign("putCount", "Put", pick(b[6:8], "c.count"), "c.count")
 				}
 			}
 		}
 
 		// --- Remove
 		if fn := x.Func(f, "Cache", "Remove"); fn != nil {
-			if b := locked(fn); b != nil && x.wantStmts("Remove", b, "*", "return false") {
-				if rem := checkIf("Remove", b[0]); rem != nil {
-					rb := rem.Body.List
+			if b := locked(fn); b != nil {
+				// `if old, ok := c.store.Check(key); ok { …; return true }; return false`, or the same as a guard clause:
+				// `old, ok := c.store.Check(key); if !ok { return false }; …; return true`
+				var rb []ast.Stmt
+				var shown string
+				if len(b) >= 3 && x.Src(b[0]) == "old, ok := c.store.Check(key)" && x.Src(b[1]) == "if !ok { return false }" {
+					rb, shown = b[2:], strings.Join(x.srcs(b), "; ")
+				} else if x.wantStmts("Remove", b, "*", "return false") {
+					if rem := checkIf("Remove", b[0]); rem != nil {
+						rb, shown = rem.Body.List, x.Src(rem)
+					}
+				}
+				if rb != nil {
 					ok := x.stmtsAre(rb, "c.store.Remove(key)", "c.onEvict(key, old)", "*", "*", "return true")
-					boolean("removeSteps", ok, "`Remove`: `"+x.Src(rem)+"`")
+					boolean("removeSteps", ok, "`Remove`: `"+shown+"`")
 					if ok {
-						assign("removeSize", "Remove", rb[2], "c.size")
-						assign("removeCount", "Remove", rb[3], "c.count")
+						assign("removeSize", "Remove", pick(rb[2:4], "c.size"), "c.size")
+						assign("removeCount", "Remove", pick(rb[2:4], "c.count"), "c.count")
 					}
 				}
 			}
@@ -202,8 +225,8 @@ func init() {
 					ok := x.stmtsAre(lb, "ek, ev := c.store.Evict()", "c.onEvict(ek, ev)", "*", "*")
 					boolean("clearSteps", ok, "`Clear` (loop): `"+strings.Join(x.srcs(lb), "; ")+"`")
 					if ok {
-						assign("clearSize", "Clear (loop)", lb[2], "c.size")
-						assign("clearCount", "Clear (loop)", lb[3], "c.count")
+						assign("clearSize", "Clear (loop)", pick(lb[2:4], "c.size"), "c.size")
+						assign("clearCount", "Clear (loop)", pick(lb[2:4], "c.count"), "c.count")
 					}
 				}
 				chk := b[1].(*ast.IfStmt)
@@ -360,7 +383,8 @@ func init() {
 		}
 		// --- Remove
 		if fn := x.Func(g, "lruStore", "Remove"); fn != nil {
-			boolean("removeDeletesKey", x.stmtsAre(fn.Body.List, "pos, ok := c.present[key]", "if ok { c.access.Remove(pos) delete(c.present, key) }"),
+			boolean("removeDeletesKey", x.stmtsAre(fn.Body.List, "pos, ok := c.present[key]", "if ok { c.access.Remove(pos) delete(c.present, key) }") ||
+				x.stmtsAre(fn.Body.List, "if pos, ok := c.present[key]; ok { c.access.Remove(pos) delete(c.present, key) }"), // the same with the lookup as the if's init statement
 				"`lruStore.Remove`: `"+strings.Join(x.srcs(fn.Body.List), "; ")+"`")
 		}
 		// --- Evict
